@@ -14,7 +14,7 @@ RULE = ("1..3 hosts on a simulated UDP network, each with source IPv4 address, 4
         "the source, 0..80 trailing body bytes, reply version 2 or 3, listening on 6445 or 20086, replying from either port after "
         "a delay below the timeout; replies built by the independent reply builder (anchored to captured replies). Hosts answer "
         "only a datagram that arrives on their port, carries a valid signature, decrypts and equals the well-known probe. "
-        "Oracle: Discover.discover(auto_connect=False) / discover_single return exactly one object per host with ip == source "
+        "Targets: limited broadcast, a directed (subnet) broadcast, a literal address or a host name. With auto_connect (V2 hosts only) the host's TCP port answers, refuses, is unreachable or hangs. Oracle: Discover.discover / discover_single return exactly one object per host with ip == source "
         "address and port, id, sn, name, type, version as encoded; AirConditioner iff tt == 0xAC else Device. All 256 type bytes "
         "x both versions exhaustively. Non-trivial: id >= 2^32 or port != 6444 or tt != ac or reported IP != source "
         "or V3. Distinct by host tuple.")
@@ -31,14 +31,34 @@ def check_case(case: dict):
 
     async def main(loop):
         harness.reset_library_globals()
+        target = case.get("target")          # None (limited broadcast), "directed" (subnet broadcast) or "name" (a host name)
+        routes = {}
+        if target == "directed":
+            routes["10.255.255.255"] = [h["ip"] for h in hosts]
+        elif target == "name":
+            routes["ac-livingroom.lan"] = [hosts[0]["ip"]]
         world = discsim.UdpWorld(net, [dict(ip=h["ip"], listen_port=h["listen_port"],
-                                            replies=[(h["delay"], h["src_port"], discsim.good_reply(h))]) for h in hosts])
+                                            replies=[(h["delay"], h["src_port"], discsim.good_reply(h))]) for h in hosts], routes)
+        auto = bool(case.get("auto_connect")) and all(h["version"] == 2 for h in hosts)
+        if auto:
+            # V2 hosts: reachable over TCP (a model device answers), or refusing / unreachable / hanging
+            from ..devsim import SimDevice
+            from ..model_ac import ModelAC
+            for h in hosts:
+                tcp = h.get("tcp", "ok")
+                dev = SimDevice(loop, version=2, device_id=h["id"], ac=ModelAC())
+                if tcp != "ok":
+                    dev.connect_script = [tcp] * 8
+                net.listen(h["ip"], h["port"], dev)
+        res["auto"] = auto
         try:
-            if case.get("single"):
-                d = await Discover.discover_single(hosts[0]["ip"], auto_connect=False, timeout=case.get("timeout", 5))
+            if case.get("single") or target == "name":
+                d = await Discover.discover_single("ac-livingroom.lan" if target == "name" else hosts[0]["ip"], auto_connect=auto, timeout=case.get("timeout", 5))
                 res["devices"] = [d] if d is not None else []
+            elif target == "directed":
+                res["devices"] = await Discover.discover(target="10.255.255.255", auto_connect=auto, timeout=case.get("timeout", 5))
             else:
-                res["devices"] = await Discover.discover(auto_connect=False, timeout=case.get("timeout", 5))
+                res["devices"] = await Discover.discover(auto_connect=auto, timeout=case.get("timeout", 5))
         except Exception as e:
             res["exc"] = e
         res["bad_probes"] = world.bad_probes
@@ -49,7 +69,7 @@ def check_case(case: dict):
     if "exc" in res:
         return (f"raises/{type(res['exc']).__name__}", f"discover raised {res['exc']!r}")
     devs = res["devices"]
-    expected_hosts = hosts[:1] if case.get("single") else hosts
+    expected_hosts = hosts[:1] if (case.get("single") or case.get("target") == "name") else hosts
     by_ip = {}
     for d in devs:
         by_ip.setdefault(d.ip, []).append(d)
@@ -71,8 +91,13 @@ def check_case(case: dict):
             return ("class", f"type byte {h['tt']:#x} instantiated as {type(d).__name__}")
     if len(devs) != len(expected_hosts):
         return ("extra", f"{len(devs)} devices reported for {len(expected_hosts)} hosts")
-    if res["tcp"]:
+    if res["tcp"] and not res["auto"]:
         return ("connects", f"auto_connect=False but TCP connections were attempted: {res['tcp']}")
+    if res["auto"]:
+        for h in expected_hosts:
+            d = by_ip[h["ip"]][0]
+            if h["tt"] == 0xAC and (h.get("tcp", "ok") == "ok") != bool(d.online):
+                return ("auto-connect/online", f"host {h['ip']} (tcp {h.get('tcp', 'ok')}) reported online={d.online}")
     return None
 
 
@@ -102,7 +127,7 @@ def host_strategy(ip_last: int):
         "sn": sn, "tt": st.one_of(st.just(0xAC), st.integers(0, 255)), "suffix": alnum, "upper": st.booleans(),
         "version": st.sampled_from([2, 3]), "listen_port": st.sampled_from([6445, 20086]), "src_port": st.sampled_from([6445, 20086]),
         "delay": st.sampled_from([0.001, 0.05, 1.0, 4.9]), "extra": st.binary(max_size=80).map(lambda b: b.hex()),
-    }, optional={"reported_ip": st.tuples(st.integers(0, 255), st.integers(0, 255), st.integers(0, 255), st.integers(0, 255)).map(lambda t: ".".join(map(str, t)))})
+    }, optional={"tcp": st.sampled_from(["ok", "ok", "refuse", "unreachable", "hang"]), "reported_ip": st.tuples(st.integers(0, 255), st.integers(0, 255), st.integers(0, 255), st.integers(0, 255)).map(lambda t: ".".join(map(str, t)))})
 
 
 def run(ctx) -> None:
@@ -116,12 +141,14 @@ def run(ctx) -> None:
             h = {"ip": f"10.1.{tt}.{version}", "id": (tt << 40) | 0x0102030405, "port": 6444 + tt, "sn": f"{tt:032d}", "tt": tt, "suffix": "F7B4",
                  "upper": bool(tt & 1), "version": version, "listen_port": [6445, 20086][tt % 2], "src_port": [6445, 20086][(tt // 2) % 2],
                  "delay": 0.05, "extra": bytes(20).hex()}
-            case = {"hosts": [h], "single": tt % 5 == 0}
+            case = {"hosts": [h], "single": tt % 5 == 0, "target": [None, "directed", "name"][tt % 3] if tt % 5 else None}
             ctx.check(case, lambda c: _run_one(ctx, c))
     ctx.sweep("all 256 type bytes x both versions", n, True)
+    def with_mode(c):
+        return st.tuples(st.sampled_from([None, None, "directed", "name"]), st.booleans()).map(lambda t: dict(c, target=t[0], auto_connect=t[1]))
     cases = st.one_of(
         st.tuples(host_strategy(1)).map(lambda t: {"hosts": list(t)}),
         st.tuples(host_strategy(1), st.booleans()).map(lambda t: {"hosts": [t[0]], "single": t[1]}),
         st.tuples(host_strategy(1), host_strategy(2)).map(lambda t: {"hosts": list(t)}),
-        st.tuples(host_strategy(1), host_strategy(2), host_strategy(3)).map(lambda t: {"hosts": list(t)}))
+        st.tuples(host_strategy(1), host_strategy(2), host_strategy(3)).map(lambda t: {"hosts": list(t)})).flatmap(with_mode)
     ctx.hyp("hosts", cases, lambda c: _run_one(ctx, c), ctx.n(3000, 200000))
